@@ -135,6 +135,15 @@ def main(argv=None):
             print(f"[{prop} {time.time()-t0:6.1f}s] {msg}", file=sys.stderr, flush=True)
 
     env = base_env()
+    # scratch directories left behind by workers that were killed (older than 3 h) are removed
+    for root in ("/dev/shm", "/tmp"):
+        try:
+            for name in os.listdir(root):
+                pth = os.path.join(root, name)
+                if name.startswith("verif-") and os.path.isdir(pth) and time.time() - os.path.getmtime(pth) > 3 * 3600:
+                    shutil.rmtree(pth, ignore_errors=True)
+        except OSError:
+            pass
     work = os.path.join(VERIF_DIR, ".work", f"{prop}-{os.getpid()}")
     os.makedirs(work, exist_ok=True)
 
